@@ -130,7 +130,7 @@ Fixpoint nontrivial_from (s : topo) (rs : list req) (deep rej : bool) : bool :=
       let rej' := rej || match snd r with
                          | Add _ => c =? 4
                          | Update _ _ => c =? 5
-                         | Delete _ => (c =? 4) || (c =? 5)
+                         | Delete _ => (c =? 4) || (c =? 5) || (c =? 6)
                          end in
       nontrivial_from (step s r) t deep' rej'
   end.
@@ -138,10 +138,9 @@ Fixpoint nontrivial_from (s : topo) (rs : list req) (deep rej : bool) : bool :=
 Definition nontrivial_case (inp : list Z) : bool :=
   let '(g, rs) := decode inp in nontrivial_from (init_topo g) rs false false.
 
-(* known finding 1: the only failing clause is 21 (a quota was deleted while pods were bound to
-   it through its namespaces), see findings/C15-delete-ignores-namespace-bound-pods.md *)
-Definition finding_sig (inp obs : list Z) : Z :=
-  if prop_case inp obs =? 21 then 1 else 0.
+(* no known finding is open (the one of findings/C15-delete-ignores-namespace-bound-pods.md was
+   repaired by commit 4aec535; a deletion with bound pods is now clause 21, an ordinary violation) *)
+Definition finding_sig (inp obs : list Z) : Z := 0.
 
 Require Extraction.
 Require Import ExtrOcamlBasic.
